@@ -27,6 +27,8 @@ import KikiVerif.LR.Extend
 import KikiVerif.Proofs.Run
 import KikiVerif.Proofs.Tight
 import KikiVerif.Properties.C09
+import KikiVerif.Proofs.Universal
+import KikiVerif.Proofs.Encode
 
 namespace KikiVerif.C03
 open KikiVerif.LR
@@ -71,6 +73,23 @@ theorem C03_first_offending {P : Type} [Inhabited P] {g : Grammar Nat Nat} {nN :
   obtain ⟨hsteps, herr⟩ := steps_of_runCfg fuel _ _ _ hrun
   exact valid_tight_first_offending hv ht hp hsteps herr
 
+/-- **C03 for every validated file whose nonterminals are all productive** (generator theorem,
+`Proofs/Universal`; no per-grammar validation involved): whenever the generator stages succeed, an error stop of
+the emitted parse loop over the emitted tables satisfies the three clauses of `C03_first_offending`.  Beyond
+`Sound ∧ Complete` this uses that every state's cores are generated from its kernel and every transition
+target has a kernel item (`coreSound_of_generator`). -/
+theorem C03_every_grammar {P : Type} [Inhabited P] (vf : VFile.File) (enc : Encode.Enc) (m : Machine.Machine)
+    (t : Table.Table) (fuel : Nat) (he : Encode.encode vf = some enc)
+    (hm : Machine.machineOf enc.ctx fuel = some (some m)) (ht : Table.machineToTable enc.ctx m = .ok t)
+    (hp : Valid.productiveB enc.ctx.g = true)
+    (w : List (Tok Nat P)) (fuel' : Nat) (cf : Cfg Nat P)
+    (hrun : runCfg enc.ctx.g (Driver.autoOfTable t) fuel' ⟨[(Driver.autoOfTable t).start], [], w⟩ = some (.err, cf)) :
+    ∃ pre, w = pre ++ cf.rest ∧
+      (∃ suf tr, WF enc.ctx.g tr (.n enc.ctx.g.start) ∧ tr.yield = pre ++ suf) ∧
+      (∀ a r, cf.rest = a :: r → ∀ r' tr, WF enc.ctx.g tr (.n enc.ctx.g.start) → tr.yield ≠ pre ++ a :: r') ∧
+      (cf.rest = [] → ∀ tr, WF enc.ctx.g tr (.n enc.ctx.g.start) → tr.yield ≠ w) :=
+  Universal.emitted_parser_first_offending (Encode.encode_ok he) hm ht hp w fuel' cf hrun
+
 /-! ### the hypotheses are satisfiable: Kiki's own front-end parser -/
 
 open KikiVerif.FrontParse KikiVerif.Generated in
@@ -94,6 +113,7 @@ theorem C03_front_end_first_offending {P : Type} [Inhabited P] (w : List (Tok Na
 end KikiVerif.C03
 
 #print axioms KikiVerif.C03.C03_front_end_first_offending
+#print axioms KikiVerif.C03.C03_every_grammar
 #print axioms KikiVerif.C03.C03_viable
 #print axioms KikiVerif.C03.C03_not_early
 #print axioms KikiVerif.C03.C03_lookahead_only
